@@ -27,7 +27,7 @@ REQUIRED_COUNTERS = ['methods_checked', 'calls_made']
 
 
 def time_limit(tier):
-    return 900 if tier == 'quick' else 5400
+    return common.default_limit(tier)
 
 
 def budget(tier):
